@@ -228,9 +228,10 @@ Proof. vm_compute. reflexivity. Qed.
 
 (* a heavier pool whose Ready condition is Unknown, and one without conditions, get no template *)
 Example ready_example :
-  map pname (scheduler_pools [mkNP (mkPool "pending" 100) RUnknown false false; mkNP (mkPool "new" 50) RAbsent false false;
-                              mkNP (mkPool "ok" 1) RTrue false false; mkNP (mkPool "broken" 90) RFalse false false;
-                              mkNP (mkPool "static" 80) RTrue true false; mkNP (mkPool "going" 70) RTrue false true]) = ["ok"].
+  map pname (scheduler_pools [mkNP (mkPool "pending" 100) RUnknown false false true; mkNP (mkPool "new" 50) RAbsent false false true;
+                              mkNP (mkPool "ok" 1) RTrue false false true; mkNP (mkPool "broken" 90) RFalse false false true;
+                              mkNP (mkPool "static" 80) RTrue true false true; mkNP (mkPool "going" 70) RTrue false true true;
+                              mkNP (mkPool "foreign" 60) RTrue false false false]) = ["ok"].
 Proof. vm_compute. reflexivity. Qed.
 
 (* the second pool is chosen because the first fails; a reserved error in front blocks instead *)
